@@ -23,7 +23,7 @@ META = {
 LEVEL = META['level']
 RULE = ('a case = one client call (pylogix) or one reference-encoded request compared with the model; distinct by (configuration, call, position); non-trivial = a value or a documented error status was compared')
 ASSUMPTIONS = ['pylogix status strings: Success=0x00, "Path destination unknown"=0x05, "Unknown error 255"=0xFF']
-REQUIRED = ['pylogix:read-at-reply-capacity', 'pylogix:sessions', 'pylogix:read', 'pylogix:write', 'pylogix:read-large-array', 'pylogix:multi-read', 'pylogix:error-out-of-range', 'pylogix:error-unknown-tag',
+REQUIRED = ['ref:two-originators', 'pylogix:read-at-reply-capacity', 'pylogix:sessions', 'pylogix:read', 'pylogix:write', 'pylogix:read-large-array', 'pylogix:multi-read', 'pylogix:error-out-of-range', 'pylogix:error-unknown-tag',
             'pylogix:forward-open-seen', 'pylogix:forward-close-seen', 'ref:unconnected', 'ref:connected', 'ref:sequence-echoed', 'types:unsigned', 'types:LREAL', 'types:BOOL']
 TIMEOUT = {'quick': 300, 'thorough': 2400}
 SOFT = {'quick': 30, 'thorough': 600}
@@ -294,6 +294,74 @@ def reference_session(ctx, sim, cfg, model, rng, ncalls):
         c.close()
 
 
+def two_originators(ctx, sim, cfg, model, rng):
+    """Two connected sessions alive at once that present the same connection triplet (two instances of one client implementation use
+    the same vendor id / serial number constants and may draw the same 16-bit connection serial): closing one must leave the other alone."""
+    from vlib import simdrv, refcodec as rc, simcheck
+    from cpppo.server.enip import device
+    wit = {'config': cfg, 'two_originators': True}
+    triplet = {'connection_serial': rng.randrange(65536), 'O_vendor': 0x1337, 'O_serial': 42}
+    clients, conns = [], []
+    try:
+        for k in range(2):
+            c = simdrv.RawClient(sim.address)
+            c.register()
+            clients.append(c)
+            otid = rng.randrange(1, 2**32)
+            fo = {'path': {'segment': [{'class': 6}, {'instance': 1}]},
+                  'forward_open': dict({'priority_time_tick': 10, 'timeout_ticks': 5,
+                                        'O_T': {'size': 500, 'type': 2, 'priority': 0, 'variable': 1, 'redundant': 0, 'RPI': 2000000, 'connection_ID': 0},
+                                        'T_O': {'size': 500, 'type': 2, 'priority': 0, 'variable': 1, 'redundant': 0, 'RPI': 2000000, 'connection_ID': otid},
+                                        'connection_timeout_multiplier': 0, 'transport_class_triggers': 0xA3,
+                                        'connection_path': {'segment': [{'port': 1, 'link': 0}, {'class': 2}, {'instance': 1}]}}, **triplet)}
+            fr = c.rr(rc.enc_request(fo), wrap=False)
+            rep = rc.dec_reply(fr['cip']) if fr and fr['status'] == 0 else None
+            if not rep or rep['status'] != 0:
+                ctx.violation('forward-open-refused', 'second originator with the same triplet: Forward Open -> %r' % (rep and rep['status'],), wit)
+                return
+            conns.append(rep['forward_open']['O_T']['connection_ID'])
+        n_before = len(device.Connection_Manager.forwards)
+        # A closes explicitly
+        fc = {'path': {'segment': [{'class': 6}, {'instance': 1}]},
+              'forward_close': dict({'priority_time_tick': 10, 'timeout_ticks': 5, 'connection_path': {'segment': [{'port': 1, 'link': 0}, {'class': 2}, {'instance': 1}]}}, **triplet)}
+        fr = clients[0].rr(rc.enc_request(fc), wrap=False)
+        if fr is None or fr['status'] != 0:
+            ctx.violation('forward-close-refused', 'Forward Close of the first originator: %r' % (fr and fr['status'],), wit)
+            return
+        ctx.count('ref:two-originators')
+        ctx.case(('two-originators', repr(cfg), triplet['connection_serial']))
+        n_after = len(device.Connection_Manager.forwards)
+        if n_after != n_before - 1:
+            ctx.violation('forward-open-table-wrong', 'two sessions with the same triplet: %d entries before the first one closed, %d after (its own entry, and only that, must go)' % (n_before, n_after), wit)
+            return
+        # B carries on over its connection: a known tag, then an unknown one (must be a CIP error on a session that stays usable)
+        name, t, n, _ = cfg[0]
+        seq = 7
+        for req, expect_ok in (({'path': {'segment': [{'symbolic': name}]}, 'read_tag': {'elements': 1}}, True),
+                               ({'path': {'segment': [{'symbolic': 'NoSuchTag'}]}, 'read_tag': {'elements': 1}}, False),
+                               ({'path': {'segment': [{'symbolic': name}]}, 'read_tag': {'elements': 1}}, True)):
+            seq += 1
+            clients[1].send(rc.unit_frame(rc.enc_request(req), clients[1].session, conns[1], seq, struct.pack('<Q', seq)))
+            raw = clients[1].recv_frame()
+            fr = rc.dec_frame(raw) if raw else None
+            if fr is None or fr['status'] != 0 or not fr.get('cip'):
+                ctx.violation('surviving-connection-disturbed-by-other-close', 'after another session with the same triplet sent Forward Close, the surviving connection got %s for %r' % (
+                    'no reply' if fr is None else 'encapsulation status 0x%02x' % fr['status'], req), wit)
+                return
+            rep = rc.dec_reply(fr['cip'])
+            if expect_ok:
+                mm = simcheck.reply_mismatch(rep, model.apply(req))
+                if mm:
+                    ctx.violation('surviving-connection-disturbed-by-other-close', '%r: %s' % (req, '; '.join(mm[:2])), wit)
+                    return
+            elif rep['status'] in (0, 6):
+                ctx.violation('surviving-connection-disturbed-by-other-close', 'read of an unknown tag succeeded: %r' % (rep,), wit)
+                return
+    finally:
+        for c in clients:
+            c.close()
+
+
 def run(ctx):
     try:
         import pylogix            # noqa: F401
@@ -315,6 +383,7 @@ def run(ctx):
             for _ in range(2 if quick else 4):
                 pylogix_session(ctx, sim, cfg, model, rng, 25 if quick else 40)
                 reference_session(ctx, sim, cfg, model, rng, 10 if quick else 20)
+                two_originators(ctx, sim, cfg, model, rng)
         finally:
             sim.stop()
 
